@@ -101,6 +101,118 @@ def live_suite(ctx, vh, name, args, min_upgrades):
                       no_input=True)
 
 
+ACT = {"s": "ASend", "g": "AGet", "d": "ADial", "p": "APing", "u": "AUpg", "m": "AWsMsg", "o": "APost"}
+
+
+def gen_schedules(maxlen):
+    """every action string up to maxlen with: one dial, probe/upgrade only after the dial, one upgrade,
+    websocket messages only after the upgrade"""
+    res = []
+
+    def rec(pref, dialed, upg):
+        if pref:
+            res.append(pref)
+        if len(pref) == maxlen:
+            return
+        for a in "sgdpumo":
+            if a == "d" and dialed:
+                continue
+            if a in "pu" and not dialed:
+                continue
+            if a == "u" and upg:
+                continue
+            if a == "m" and not upg:
+                continue
+            rec(pref + a, dialed or a == "d", upg or a == "u")
+    rec("", False, False)
+    return res
+
+
+def zl(xs):
+    return "(@nil Z)" if not xs else "[" + "; ".join("%d" % x for x in xs) + "]%Z"
+
+
+def forced_term(r):
+    obs = glist(gpair("(Some %s)" % zl(o["poll"]) if o["hasp"] else "None", zl(o["ws"]), nl(o["srecv"]),
+                      gbool(o["tr"] == "websocket")) for o in r["obs"])
+    return gpair(glist(ACT[a] for a in r["sched"]), obs)
+
+
+def forced_suite(ctx, vh):
+    import os
+    import random
+    allsched = [s for s in gen_schedules(6 if ctx.quick else 7) if "d" in s]
+    rnd = random.Random(ctx.seed)
+    core = [s for s in allsched if "u" in s and "s" in s]
+    pick = rnd.sample(core, min(len(core), 260 if ctx.quick else 2500)) + rnd.sample(allsched, min(len(allsched), 60 if ctx.quick else 500))
+    # longer random schedules around the swap
+    for _ in range(40 if ctx.quick else 400):
+        pre = "".join(rnd.choice("ssgo") for _ in range(rnd.randint(1, 4)))
+        mid = "".join(rnd.choice("sgop") for _ in range(rnd.randint(0, 3)))
+        post = "".join(rnd.choice("ssmgo") for _ in range(rnd.randint(1, 4)))
+        pick.append(pre + "d" + mid + "p" + rnd.choice(["", "s", "g", "sg", "o"]) + "u" + post)
+    pick = sorted(set(pick))
+
+    # what the model expects to come out at every step: the rig waits (bounded) for that much, so a slow
+    # machine does not change the interleaving; what is then recorded is compared in full
+    import re
+    vals = ctx.coq_eval_values("up_fexpect", HDR, ["fexpect %s" % glist(ACT[a] for a in s) for s in pick], shard=120)
+    expect = {}
+    for s_, v in zip(pick, vals):
+        nums = [int(x) for x in re.findall(r"\d+", v)]
+        expect[s_] = ";".join(",".join(str(x) for x in nums[i:i + 4]) for i in range(0, len(nums), 4))
+
+    def run_rig(scheds, settle, tag):
+        path = os.path.join(ctx.work, "sched-%s.txt" % tag)
+        with open(path, "w") as f:
+            f.write("\n".join("%s %s" % (s_, expect[s_]) for s_ in scheds) + "\n")
+        return ctx.vh_jsonl(vh, "upgrade", ["-mode", "forced", "-sched", path, "-settle", settle, "-par", 32], timeout=900)
+
+    rows = run_rig(pick, 12, "a")
+    if rows is None:
+        return
+    env = [r for r in rows if r["env"]]
+    rows = [r for r in rows if not r["env"]]
+    ctx.indeterminate += len(env)
+    if len(env) * 5 > len(pick):
+        ctx.violation("forced-schedule rig: %d of %d schedules failed for environmental reasons %s" % (len(env), len(pick), [r["env"] for r in env[:3]]),
+                      {"kind": "correspondence-broken", "suite": "upgrade/forced", "theorems": THEOREMS}, no_input=True)
+        return
+    terms = [forced_term(r) for r in rows]
+    bad_agree = ctx.coq_eval_cases("up_fagree", HDR, terms, "agree_forced", shard=60)
+    bad_oracle = ctx.coq_eval_cases("up_foracle", HDR, terms, "oracle_forced", shard=60)
+    # a step that had not settled (loaded machine) shows up as a disagreement: re-run those schedules twice
+    # with much longer quiet times; only an observation that reproduces identically counts
+    suspects = sorted(set(bad_agree) | set(bad_oracle))
+    confirmed_agree, confirmed_oracle = [], []
+    if suspects:
+        again1 = {r["sched"]: r for r in (run_rig([rows[i]["sched"] for i in suspects], 100, "b") or []) if not r["env"]}
+        again2 = {r["sched"]: r for r in (run_rig([rows[i]["sched"] for i in suspects], 300, "c") or []) if not r["env"]}
+        stable = [again1[s] for s in again1 if s in again2 and again1[s]["obs"] == again2[s]["obs"]]
+        ctx.indeterminate += len(suspects) - len(stable)
+        if stable:
+            t2 = [forced_term(r) for r in stable]
+            confirmed_agree = [stable[i] for i in ctx.coq_eval_cases("up_fagree2", HDR, t2, "agree_forced", shard=60)]
+            confirmed_oracle = [stable[i] for i in ctx.coq_eval_cases("up_foracle2", HDR, t2, "oracle_forced", shard=60)]
+    for r in rows:
+        ctx.count(1, nontrivial_key=("fs", r["sched"]) if ("u" in r["sched"] and "s" in r["sched"]) else None,
+                  dist="upgrade:forced:" + ("swap-with-traffic" if ("u" in r["sched"] and "s" in r["sched"]) else "other"))
+    if rows:
+        ctx.sample({"suite": "upgrade/forced", "case": rows[len(rows) // 3]})
+    ctx.obligation("correspondence:upgrade/forced", "correspondence", not confirmed_agree,
+                   "%d raw-peer schedules, %d disagree with the model step by step (%d unsettled first runs re-run)" % (
+                       len(rows), len(confirmed_agree), len(suspects)))
+    ctx.obligation("oracle:upgrade/forced", "oracle", not confirmed_oracle, "%d schedules, %d fail" % (len(rows), len(confirmed_oracle)))
+    for r in confirmed_oracle[:3]:
+        ctx.violation("server output across the swap duplicates, invents or loses a message: schedule %s (s=server send, g=GET poll, d=dial ws, "
+                      "p=probe ping, u=UPGRADE, m=ws message, o=POST) observations %s" % (r["sched"], r["obs"]),
+                      {"kind": "failing-input", "engine": "upgrade", "mode": "forced", "case": r})
+    if confirmed_agree and not confirmed_oracle:
+        r = confirmed_agree[0]
+        ctx.violation("the server no longer does, step by step, what the model Eio/Upgrade.v does on raw-peer schedule %s: %s" % (r["sched"], r["obs"]),
+                      {"kind": "correspondence-broken", "suite": "upgrade/forced", "theorems": THEOREMS, "case": r}, no_input=True)
+
+
 def run(ctx):
     ctx.rule = ("live eio server <-> eio client connections upgrading polling->websocket under continuous numbered text+binary "
                 "traffic both ways with bursts at the swap; non-trivial = both sides had messages sent before AND after the swap "
@@ -117,4 +229,5 @@ def run(ctx):
         return
     n_live = 130 if ctx.quick else 900
     live_suite(ctx, vh, "live", ["-mode", "live", "-n", n_live, "-par", 24, "-seed", ctx.seed], min_upgrades=100)
+    forced_suite(ctx, vh)
     live_suite(ctx, vh, "fault", ["-mode", "fault", "-n", 2 if ctx.quick else 8, "-par", 40, "-seed", ctx.seed + 1], min_upgrades=0)
